@@ -6,7 +6,7 @@ From Coq Require Import String.
 From Coq Require Import List Ascii ZArith Bool.
 From CGV Require Import Base.PyBase Base.PyVal Base.NxGraph Stereo.EzImpl Stereo.EzDefs.
 Import ListNotations.
-Open Scope string_scope.
+Local Open Scope string_scope.
 Open Scope Z_scope.
 
 Definition wnode (k : Z) (el : string) (fid : Z) (tok : option string) (adj : list (Z * Z)) : nrec :=
